@@ -13,18 +13,20 @@ variable {Θ R : Type} [AddCommGroup Θ] [CommRing R] [RotSem Θ R] [RotLaws Θ 
 /-- **C13 (main).** For every `k ≥ 0`, every angle list, both axes and entanglers, the circuit
 with the trailing entangler denotes the ideal multiplexer, on every state `ψ`. -/
 theorem C13_ucr (half : Θ → Θ) (negl : Θ → Bool)
-    (hhalf : ∀ a, half a + half a = a) (hnegl : ∀ a, negl a = true → a = 0)
+    (hhalf : ∀ a, half a + half a = a) (hadd : ∀ a b, half (a + b) = half a + half b)
+    (hnegl : ∀ a, negl a = true → a = 0)
     (ax : Axis) (e : Ent) (hv : validPair ax e = true) (k : Nat) (a : Nat → Θ) (ψ : State R) :
     sem (ucr (stdOps half negl) ax e k a true) ψ = muxIdeal ax k a ψ :=
-  ucr_last_correct half negl hhalf hnegl ax e hv k a ψ
+  ucr_last_correct half negl hhalf hadd hnegl ax e hv k a ψ
 
 /-- **C13 (omitted entangler).** For `k ≥ 1`, appending the single entangler to the
 `last_control = False` circuit restores exactly the multiplexer. -/
 theorem C13_nolast (half : Θ → Θ) (negl : Θ → Bool)
-    (hhalf : ∀ a, half a + half a = a) (hnegl : ∀ a, negl a = true → a = 0)
+    (hhalf : ∀ a, half a + half a = a) (hadd : ∀ a b, half (a + b) = half a + half b)
+    (hnegl : ∀ a, negl a = true → a = 0)
     (ax : Axis) (e : Ent) (hv : validPair ax e = true) (k : Nat) (a : Nat → Θ) (ψ : State R) :
     sem (ucr (stdOps half negl) ax e (k+1) a false ++ [entG e (k+1) 0]) ψ
       = muxIdeal ax (k+1) a ψ :=
-  ucr_nolast_correct half negl hhalf hnegl ax e hv k a ψ
+  ucr_nolast_correct half negl hhalf hadd hnegl ax e hv k a ψ
 
 end Qclib
